@@ -1,7 +1,146 @@
 import GoawkModel.Basic
-/-! Line-protocol handler for property C02: one request line (already split into words, without the leading `c02`) → one answer line. -/
-namespace GoawkModel.Drv.C02
+import GoawkModel.C02
+/-! Line-protocol handler for property C02: one request line (already split into words) → one answer line.
 
-def handle (_args : List String) : String := "unimplemented"
+  verify <nNums> <nStrs> <nRegexes> <nScalars> <nArrays> <nNative> <nFuncs> (F <numScalars> <numArrays> <len> <word>*)*
+         (B <endHeight> <len> <word>*)*                      → ok | bad <which block> <pc> <reason>
+  field get <nFields> <bits16hex> | field set <nFields> <bits> | field nf <bits> | field argc <bits>
+  consts                                                     → <maxCallDepth> <maxFieldIndex> <numOpcodes>
+  depth <n>                                                  → outcome of n nested calls of a one-function program
+-/
+namespace GoawkModel.Drv.C02
+open GoawkModel GoawkModel.C02 GoawkModel.Generated
+
+def parseInts (ws : List String) : Option (List Int) := ws.mapM String.toInt?
+
+/-- split `n` ints off the front -/
+def takeN (n : Nat) (xs : List Int) : Option (List Int × List Int) :=
+  if xs.length < n then none else some (xs.take n, xs.drop n)
+
+/-- parse `count` sections, each introduced by a marker word already turned into a number by the caller -/
+partial def parseFuncs : Nat → List String → Option (List FuncInfo × List String)
+  | 0, ws => some ([], ws)
+  | k + 1, "F" :: ns :: na :: len :: rest =>
+    match ns.toNat?, na.toNat?, len.toNat? with
+    | some ns, some na, some len =>
+      match parseInts (rest.take len) with
+      | some body =>
+        if body.length ≠ len then none else
+        match parseFuncs k (rest.drop len) with
+        | some (fs, ws) => some ({ numScalars := ns, numArrays := na, body := body } :: fs, ws)
+        | none => none
+      | none => none
+    | _, _, _ => none
+  | _, _ => none
+
+partial def parseBlocks : List String → Option (List (Code × Nat))
+  | [] => some []
+  | "B" :: e :: len :: rest =>
+    match e.toNat?, len.toNat? with
+    | some e, some len =>
+      match parseInts (rest.take len) with
+      | some body =>
+        if body.length ≠ len then none else
+        match parseBlocks (rest.drop len) with
+        | some bs => some ((body, e) :: bs)
+        | none => none
+      | none => none
+    | _, _ => none
+  | _ => none
+
+def parseProg (ws : List String) : Option Prog :=
+  match ws with
+  | a :: b :: c :: d :: e :: f :: g :: rest =>
+    match a.toNat?, b.toNat?, c.toNat?, d.toNat?, e.toNat?, f.toNat?, g.toNat? with
+    | some a, some b, some c, some d, some e, some f, some g =>
+      match parseFuncs g rest with
+      | some (fs, ws') =>
+        match parseBlocks ws' with
+        | some bs => some { tables := { nNums := a, nStrs := b, nRegexes := c, nScalars := d, nArrays := e, nNative := f, funcs := fs }, blocks := bs }
+        | none => none
+      | none => none
+    | _, _, _, _, _, _, _ => none
+  | _ => none
+
+/-- diagnosis of a rejected block (untrusted; only for the message) -/
+partial def diagBlock (t : Tables) (cx : Ctx) (inLoop : Bool) (endH : Nat) (code : Code) : String :=
+  let H := infer t cx code
+  let bs := boundaries t cx code (code.length + 1) 0
+  match (List.range (code.length + 1)).find? (fun pc => !((hAt H pc).isNone || bs.contains pc)) with
+  | some pc => s!"{pc} height-off-boundary"
+  | none =>
+    if !(hAt H code.length == none || hAt H code.length == some endH) then s!"{code.length} end-height-{repr (hAt H code.length)}-want-{endH}" else
+    match (List.range code.length).find? (fun pc => !checkAt t cx inLoop code H (fun _ => true) pc) with
+    | some pc =>
+      match decode t cx code pc with
+      | none => s!"{pc} undecodable-op-{code.getD pc 0}"
+      | some i => s!"{pc} stack-or-jump-{(reprStr i).replace " " "_"}-at-height-{repr (hAt H pc)}"
+    | none =>
+      match (List.range code.length).find? (fun pc => !checkAt t cx inLoop code H (fun body => verifyBlock t cx (body.length + 1) true 0 body) pc) with
+      | some pc =>
+        match decode t cx code pc with
+        | some (.forIn len bodyLen) => s!"{pc} forin-body: " ++ diagBlock t cx true 0 ((code.drop (pc + len)).take bodyLen)
+        | _ => s!"{pc} ?"
+      | none => "0 fuel"
+
+def diag (p : Prog) : String :=
+  let t := p.tables
+  match (List.range p.blocks.length).find? (fun i => match p.blocks[i]? with | some b => !verifyTop t b | none => false) with
+  | some i => match p.blocks[i]? with
+    | some b => s!"bad block {i} " ++ diagBlock t topCtx false b.2 b.1
+    | none => "bad ?"
+  | none =>
+    match (List.range t.funcs.length).find? (fun i => match t.funcs[i]? with | some f => !verifyFunc t f | none => false) with
+    | some i => match t.funcs[i]? with
+      | some f => s!"bad func {i} " ++ diagBlock t (funcCtx f) false 0 f.body
+      | none => "bad ?"
+    | none => "bad ?"
+
+def hexNat (s : String) : Option Nat :=
+  s.toList.foldlM (fun acc c => (hexVal c).map fun v => acc * 16 + v) 0
+
+def showField : FieldRes → String
+  | .line => "line" | .empty => "empty" | .field i => s!"field:{i}" | .stuck => "stuck"
+def showSet : SetRes → String
+  | .setLine => "setline" | .ok n s => s!"ok:{n}:{s}" | .ignored => "ignored" | .error => "error" | .stuck => "stuck"
+
+/-- n nested calls of `function f(x) { return f(x) }`-shaped code in the abstract machine: Num, CallUser f 0, Return -/
+def depthProbe (n : Nat) : String :=
+  let op (n : String) : Int := ((Opcodes.opcodes.idxOf n : Nat) : Int)
+  let body : Code := [op "Local", 0, op "CallUser", 0, 0, op "Return"]
+  let f : FuncInfo := { numScalars := 1, numArrays := 0, body := body }
+  let t : Tables := { nNums := 1, nStrs := 0, nRegexes := 0, nScalars := 0, nArrays := 0, nNative := 0, funcs := [f] }
+  let main : Code := [op "Num", 0, op "CallUser", 0, 0, op "Drop"]
+  match run t (initState main 0) (List.replicate (2 * n + 1) Choice.a) with
+  | .next s => s!"running depth={callDepth s}"
+  | .done => "done"
+  | .error => "error"
+  | .stuck => "stuck"
+
+def handle (args : List String) : String :=
+  match args with
+  | "verify" :: rest =>
+    match parseProg rest with
+    | none => "bad-request"
+    | some p => if verify p then "ok" else diag p
+  | ["field", "get", n, bits] =>
+    match n.toNat?, hexNat bits with
+    | some n, some b => showField (getField n (floatToInt (Num.ofBits b)))
+    | _, _ => "bad-request"
+  | ["field", "set", n, bits] =>
+    match n.toNat?, hexNat bits with
+    | some n, some b => showSet (setField n (floatToInt (Num.ofBits b)))
+    | _, _ => "bad-request"
+  | ["field", "nf", bits] =>
+    match hexNat bits with
+    | some b => match setNF (Num.ofBits b) with | some k => s!"ok:{k}" | none => "error"
+    | none => "bad-request"
+  | ["field", "argc", bits] =>
+    match hexNat bits with
+    | some b => if setARGC (Num.ofBits b) then "ok" else "error"
+    | none => "bad-request"
+  | ["consts"] => s!"{Consts.maxCallDepth} {Consts.maxFieldIndex} {C02Arity.numOpcodes}"
+  | ["depth", n] => match n.toNat? with | some n => depthProbe n | none => "bad-request"
+  | _ => "bad-request"
 
 end GoawkModel.Drv.C02
